@@ -573,7 +573,7 @@ fn scenarios(thorough: bool) -> Vec<(Scenario, Vec<usize>)> {
                 if script == 0 {
                     // thorough: ALL schedules for E=1 without outer code (with it the space exceeds 10^8); bound 4 otherwise
                     add(2, 1, bch, iz, 1, script, Inject::None, vec![if t && bch == 0 { UNBOUNDED } else if t { 4 } else { 3 }], 0);
-                    add(2, 2, bch, iz, 1, script, Inject::None, vec![if t { 4 } else { 3 }], 0);
+                    add(2, 2, bch, iz, 1, script, Inject::None, vec![if t && bch == 0 { 5 } else if t { 4 } else { 3 }], 0);
                 } else if script == 1 || t {
                     add(2, 1, bch, iz, 1, script, Inject::None, vec![if t { 3 } else { 2 }], 0);
                     add(2, 2, bch, iz, 1, script, Inject::None, vec![if t { 3 } else { 2 }], 0);
@@ -583,7 +583,7 @@ fn scenarios(thorough: bool) -> Vec<(Scenario, Vec<usize>)> {
                 // three workers, one point
                 if script == 0 && iz {
                     add(3, 1, bch, iz, 1, script, Inject::None, vec![if t && bch == 0 { 3 } else { 2 }], 0);
-                    add(3, 2, bch, iz, 1, script, Inject::None, vec![if t || bch == 0 { 2 } else { 1 }], 0);
+                    add(3, 2, bch, iz, 1, script, Inject::None, vec![if t && bch == 0 { 3 } else if t || bch == 0 { 2 } else { 1 }], 0);
                 } else if script == 0 && t {
                     add(3, 1, bch, iz, 1, script, Inject::None, vec![2], 0);
                     add(3, 2, bch, iz, 1, script, Inject::None, vec![2], 0);
@@ -771,6 +771,7 @@ pub fn run(run: &Run) -> i32 {
                 (3, b, _) if b >= 3 => 64,
                 (3, 2, _) => 16,
                 (3, 1, 2) => 8,
+                (2, b, _) if b >= 5 => 128,
                 (2, b, _) if b >= 4 => 64,
                 (2, 3, _) => 16,
                 (2, 2, 2) => 8,
